@@ -617,4 +617,226 @@ theorem bwr_step (s : JS) (l : Label) (s' : JS) (hinv : BoundWhileRolling s) (h 
 theorem bound_while_rolling (ls : List Label) (s s' : JS) (h0 : BoundWhileRolling s) (h : run s ls = some s') : BoundWhileRolling s' :=
   run_invariant BoundWhileRolling bwr_step ls s s' h0 h
 
+
+/-! ### Finalizing means unheld; the second holder keeps the routing alive -/
+
+/-- while the TrafficRouting is Finalizing nobody holds it -/
+def FinalizingUnheld (s : JS) : Prop := ∀ t, s.tr = some t → t.phase = .finalizing → t.holders = []
+
+theorem ro_tr_shape (i : Nat) (pre post : Option TRO) (t' : TRO) (hp : post = some t')
+    (h1 : addedOnlyWhenOpen i pre post = true) (h2 : othersKept i pre post = true) :
+    ∃ t, pre = some t ∧ t'.phase = t.phase ∧ t'.deleting = t.deleting ∧ (∀ j, j ∈ t'.holders → j ∈ t.holders ∨ (j = i ∧ t.phase ≠ .finalizing ∧ t.phase ≠ .terminating ∧ t.deleting = false)) ∧
+      (∀ j, j ≠ i → j ∈ t.holders → j ∈ t'.holders) := by
+  subst hp
+  cases pre with
+  | none => simp [othersKept] at h2
+  | some t =>
+    simp only [othersKept, Bool.and_eq_true, List.all_eq_true, Bool.or_eq_true, beq_iff_eq, List.contains_iff_mem] at h2
+    obtain ⟨⟨⟨⟨⟨⟨⟨hd, _⟩, hph⟩, _⟩, _⟩, _⟩, hk1⟩, hk2⟩ := h2
+    refine ⟨t, rfl, hph, hd, ?_, ?_⟩
+    · intro j hj
+      rcases hk2 j hj with h | h
+      · subst h
+        by_cases hin : j ∈ t.holders
+        · exact Or.inl hin
+        · right
+          unfold addedOnlyWhenOpen at h1
+          have c1 : (holdersOf (some t)).contains j = false := by simpa [holdersOf] using hin
+          have c2 : (holdersOf (some t')).contains j = true := by simpa [holdersOf] using hj
+          rw [c1, c2] at h1
+          simp only [Bool.not_false, Bool.and_self, if_true, Bool.and_eq_true, Bool.not_eq_true', bne_iff_ne, ne_eq] at h1
+          exact ⟨rfl, h1.1.2, h1.2, h1.1.1⟩
+      · exact Or.inl h
+    · intro j hji hj
+      rcases hk1 j hj with h | h
+      · exact absurd h hji
+      · exact h
+
+theorem fu_step (s : JS) (l : Label) (s' : JS) (hinv : FinalizingUnheld s) (h : step s l = some s') : FinalizingUnheld s' := by
+  cases l with
+  | ro j f =>
+    cases he : s.ros[j]? with
+    | none => simp only [step, he] at h; cases h; exact hinv
+    | some e =>
+      cases hg : e.gone with
+      | true => simp only [step, he, hg, if_true] at h; cases h; exact hinv
+      | false =>
+        obtain ⟨r, tr', hr, hs'⟩ := step_ro s s' j f e he hg h
+        subst hs'
+        obtain ⟨a1, a2⟩ := ro_tr_effect _ _ _ _ _ _ _ hr
+        intro t' ht' hph
+        obtain ⟨t, hpre, e1, _, e3, _⟩ := ro_tr_shape j s.tr tr' t' ht' a1 a2
+        have ht := hinv t hpre (e1 ▸ hph)
+        cases hh : t'.holders with
+        | nil => rfl
+        | cons a l =>
+          have := e3 a (by rw [hh]; exact List.mem_cons_self)
+          rcases this with h1 | ⟨_, h2, _⟩
+          · rw [ht] at h1; cases h1
+          · exact absurd (e1 ▸ hph) h2
+  | tr =>
+    cases htr : s.tr with
+    | none => rw [step_tr_none s htr] at h; cases h; exact hinv
+    | some t =>
+      rw [step_tr s t htr] at h; cases h
+      intro t' ht' hph
+      dsimp only at ht'
+      have := stored_some _ _ ht'; subst this
+      rw [(core_frame t s.net s.mem).1]
+      rcases (core_phase t s.net s.mem).1 hph with h1 | ⟨_, h1⟩
+      · exact hinv t htr h1
+      · exact h1
+  | tick => simp only [step] at h; cases h; exact hinv
+  | crash => simp only [step] at h; cases h; exact hinv
+  | deleteTR =>
+    simp only [step] at h; cases h
+    intro t' ht' hph
+    dsimp only at ht'
+    cases htr : s.tr with
+    | none => rw [htr] at ht'; cases ht'
+    | some t =>
+      rw [htr] at ht'
+      simp only [Option.bind_some] at ht'
+      have := stored_some _ _ ht'; subst this
+      exact hinv t htr hph
+  | createTR w g hr =>
+    simp only [step] at h
+    cases htr : s.tr with
+    | none =>
+      rw [htr] at h; cases h
+      intro t' ht' hph
+      cases ht'; cases hph
+    | some t => rw [htr] at h; cases h; exact hinv
+  | editStrategy w =>
+    simp only [step] at h; cases h
+    intro t' ht' hph
+    dsimp only at ht'
+    cases htr : s.tr with
+    | none => rw [htr] at ht'; cases ht'
+    | some t =>
+      rw [htr] at ht'
+      cases ht'
+      exact hinv t htr hph
+  | deleteRo i =>
+    simp only [step] at h
+    repeat' split at h
+    all_goals (cases h; exact hinv)
+  | perturb i w' =>
+    simp only [step] at h
+    repeat' split at h
+    all_goals (cases h; exact hinv)
+  | envNet n => simp only [step] at h; cases h; exact hinv
+
+/-- **`finalizing_means_unheld`** — along every history: a TrafficRouting in phase Finalizing carries no progressing
+    finalizer (it got there unheld, and nobody can join before it is Healthy again) -/
+theorem finalizing_means_unheld (ls : List Label) (s s' : JS) (h0 : FinalizingUnheld s) (h : run s ls = some s') : FinalizingUnheld s' :=
+  run_invariant FinalizingUnheld fu_step ls s s' h0 h
+
+/-- rollout `j` holds a live TrafficRouting that is not cleaning up -/
+def HeldBy (j : Nat) (s : JS) : Prop :=
+  ∃ t, s.tr = some t ∧ j ∈ t.holders ∧ t.deleting = false ∧ t.phase ≠ .finalizing ∧ t.phase ≠ .terminating
+
+/-- the labels that are not `j`'s own reconcile and not the deletion of the TrafficRouting -/
+def otherThan (j : Nat) : Label → Bool
+  | .ro i _ => i != j
+  | .deleteTR => false
+  | _ => true
+
+theorem stored_live (t : TRO) (h : t.deleting = false) : stored t = some t := by
+  unfold stored isGone; simp [h]
+
+/-- **5. `two_rollouts_share` (C05, C19-flavoured), one step** — while rollout `j` holds the TrafficRouting, whatever the
+    other rollouts do (bind, run, finish, fail, get deleted), whatever the TrafficRouting controller, clock, crashes or
+    foreign edits do: `j` keeps holding it, the object stays live and out of Finalizing / Terminating, and the
+    TrafficRouting controller does not withdraw the route. -/
+theorem held_step (j : Nat) (s : JS) (l : Label) (s' : JS) (hh : HeldBy j s) (hl : otherThan j l = true) (h : step s l = some s') :
+    HeldBy j s' ∧ (l = .tr → withdrawn s.net s'.net = false) := by
+  obtain ⟨t, htr, hj, hd, hp1, hp2⟩ := hh
+  cases l with
+  | ro i f =>
+    refine ⟨?_, fun hc => by cases hc⟩
+    have hij : j ≠ i := by
+      simp only [otherThan, bne_iff_ne, ne_eq] at hl
+      exact fun hc => hl hc.symm
+    cases he : s.ros[i]? with
+    | none => simp only [step, he] at h; cases h; exact ⟨t, htr, hj, hd, hp1, hp2⟩
+    | some e =>
+      cases hg : e.gone with
+      | true => simp only [step, he, hg, if_true] at h; cases h; exact ⟨t, htr, hj, hd, hp1, hp2⟩
+      | false =>
+        obtain ⟨r, tr', hr, hs'⟩ := step_ro s s' i f e he hg h
+        subst hs'
+        obtain ⟨a1, a2⟩ := ro_tr_effect _ _ _ _ _ _ _ hr
+        have hmem := othersKept_mem i j _ _ a2 hij (by rw [htr]; exact hj)
+        cases tr' with
+        | none => simp [holdersOf] at hmem
+        | some t' =>
+          obtain ⟨t0, hpre, e1, e2, _, _⟩ := ro_tr_shape i s.tr (some t') t' rfl a1 a2
+          rw [htr] at hpre; cases hpre
+          exact ⟨t', rfl, hmem, e2.trans hd, e1 ▸ hp1, e1 ▸ hp2⟩
+  | tr =>
+    have hnr := held_not_restored s s' h
+    rw [step_tr s t htr] at h; cases h
+    obtain ⟨f1, f2, _⟩ := core_frame t s.net s.mem
+    have hph := core_phase t s.net s.mem
+    refine ⟨⟨(trCore t s.net s.mem).t, stored_live _ (f2.trans hd), f1 ▸ hj, f2.trans hd, ?_, ?_⟩, fun _ => ?_⟩
+    · intro hc
+      rcases hph.1 hc with h1 | ⟨_, h1⟩
+      · exact hp1 h1
+      · rw [h1] at hj; cases hj
+    · intro hc
+      rcases hph.2 hc with h1 | h1
+      · exact hp2 h1
+      · rw [hd] at h1; cases h1
+    · unfold heldNotRestored at hnr
+      rw [htr] at hnr
+      dsimp only at hnr ⊢
+      cases hw : withdrawn s.net (trCore t s.net s.mem).net with
+      | false => rfl
+      | true =>
+        rw [hw] at hnr
+        simp only [Bool.not_true, Bool.false_or, Bool.or_eq_true, beq_iff_eq] at hnr
+        rcases hnr with (h1 | h1) | h1
+        · rw [hd] at h1; cases h1
+        · exact absurd h1 hp1
+        · exact absurd h1 hp2
+  | tick => simp only [step] at h; cases h; exact ⟨⟨t, htr, hj, hd, hp1, hp2⟩, fun hc => by cases hc⟩
+  | crash => simp only [step] at h; cases h; exact ⟨⟨t, htr, hj, hd, hp1, hp2⟩, fun hc => by cases hc⟩
+  | deleteTR => cases hl
+  | createTR w g hr =>
+    simp only [step, htr] at h; cases h; exact ⟨⟨t, htr, hj, hd, hp1, hp2⟩, fun hc => by cases hc⟩
+  | editStrategy w =>
+    simp only [step] at h; cases h
+    refine ⟨⟨{ t with weight := w }, ?_, hj, hd, hp1, hp2⟩, fun hc => by cases hc⟩
+    rw [htr]; rfl
+  | deleteRo i =>
+    simp only [step] at h
+    refine ⟨?_, fun hc => by cases hc⟩
+    repeat' split at h
+    all_goals (cases h; exact ⟨t, htr, hj, hd, hp1, hp2⟩)
+  | perturb i w' =>
+    simp only [step] at h
+    refine ⟨?_, fun hc => by cases hc⟩
+    repeat' split at h
+    all_goals (cases h; exact ⟨t, htr, hj, hd, hp1, hp2⟩)
+  | envNet n => simp only [step] at h; cases h; exact ⟨⟨t, htr, hj, hd, hp1, hp2⟩, fun hc => by cases hc⟩
+
+/-- **5. `two_rollouts_share` (C05), every history** — from any state in which rollout `j` holds the TrafficRouting:
+    along every history made of the other rollouts' reconciles (all of them may finish and take their finalizers off),
+    TrafficRouting reconciles, clock, crashes, edits, deletions of rollouts and foreign changes, `j` still holds a live
+    TrafficRouting that never entered Finalizing / Terminating.  (After `j` too has let go, `released_means_restored`
+    applies: the state after both finished is the restored one.) -/
+theorem two_rollouts_share (j : Nat) : ∀ (ls : List Label) (s s' : JS), HeldBy j s → (∀ l ∈ ls, otherThan j l = true) →
+    run s ls = some s' → HeldBy j s' := by
+  intro ls
+  induction ls with
+  | nil => intro s s' hh _ h; cases h; exact hh
+  | cons l ls ih =>
+    intro s s' hh hall h
+    unfold run at h
+    split at h
+    · cases h
+    · rename_i s1 h1
+      exact ih s1 s' (held_step j s l s1 hh (hall l List.mem_cons_self) h1).1 (fun x hx => hall x (List.mem_cons_of_mem _ hx)) h
+
 end RV.Props.TRBind
